@@ -308,3 +308,24 @@ func Uint16ToBytesLittleEndianInplace(val uint16, buf []byte) {
 	buf[0] = byte(val)
 	buf[1] = byte(val >> 8)
 }
+
+// A bitset.BitSet is serialized as its length in bits (8 bytes, big endian)
+// followed by its 64-bit words. Its decoder allocates the words for whatever
+// length it reads, so check that the words fit into buf before decoding a bitset
+// that comes from a file.
+func CheckSerializedBitsetFits(buf []byte) error {
+	if len(buf) < 8 {
+		return fmt.Errorf("CheckSerializedBitsetFits: need 8 bytes for the length, got %v", len(buf))
+	}
+
+	numBits := binary.BigEndian.Uint64(buf)
+	numWords := numBits / 64
+	if numBits%64 != 0 {
+		numWords++
+	}
+	if numWords > uint64(len(buf)-8)/8 {
+		return fmt.Errorf("CheckSerializedBitsetFits: %v bits do not fit into %v bytes", numBits, len(buf)-8)
+	}
+
+	return nil
+}
